@@ -16,6 +16,10 @@ HOSTILE += ['Government consumption of goods and services, which this version of
             'z' * 70 + ' exogenous ' + 'y' * 40 + ' # x = 1',
             'a very long description ' * 6 + 'EXOGENOUS variables follow (0) (k-1)']
 HOSTILE += ['Household {alpha_1 = 0.6}', 'share {0} of {1}', 'a lone { brace', '}{', '{k-1} = {}', '100% {:d} %s %(x)s']
+# texts pasted from a PDF or a web page: still ONE line (no newline character), but with a form feed, a vertical tab, an
+# information separator, NEL or a Unicode line/paragraph separator in it
+HOSTILE += ['pasted from a pdf\x0cexogenous = 5', 'two\u2028x = 1', 'nel\x85MaxTime = 2', 'gs\x1dexogenous', 'vt\x0by(0) = 3',
+            'ps\u2029z = z(k-1)']
 HOSTILE_NOMARK = [h for h in HOSTILE if 'exogenous' not in h.lower()]
 MALFORMED = ['just some words', 'a = b = c', 'LL = {v}(k-1) + 1', 'LL = 2*{v}(k-1)', 'LL = {v}(t-1) - {v}',
              'LL = 0.5 *{v} (k -1 )', 'LL = {v} (k -1 ) + 1', 'LL = {v} (k -1 )*{v} (k -1 )', 'LL = 1 + {v}(t-1)',
